@@ -94,7 +94,11 @@ fn parse_seqmap<'a>(mut text: SourceStr<'a>, emitter: &impl Emitter) -> Result<S
                     let value_capture = captures.get(2).unwrap();
                     let number_spanned = line.slice(number_capture.start()..number_capture.end());
                     let value_spanned = line.slice(value_capture.start()..value_capture.end());
-                    let number = sp!(number_spanned.span() => number_spanned.parse().unwrap());
+                    let number = number_spanned.parse().map_err(|_| emitter.emit(error!(
+                        message("error parsing mapfile item"),
+                        primary(number_spanned.span(), "number out of range"),
+                    )))?;
+                    let number = sp!(number_spanned.span() => number);
                     let value = sp!(value_spanned.span() => value_spanned.str);
 
                     match &mut cur_section {
